@@ -7,6 +7,7 @@ from inscripta.biocantor.gene.collections import AnnotationCollection
 from inscripta.biocantor.io.gff3.constants import GFF3Headers
 from inscripta.biocantor.io.gff3.exc import GFF3ExportException
 from inscripta.biocantor.parent import SequenceType
+from inscripta.biocantor.sequence import Sequence
 
 
 def collection_to_gff3(
@@ -77,4 +78,9 @@ def collection_to_gff3(
     if add_sequences:
         print(GFF3Headers.FASTA_HEADER.value, file=gff3_handle)
         for collection in collections:
-            print(collection.sequence.to_fasta(), file=gff3_handle)
+            # the FASTA record must carry the name used in column 1 and in the sequence-region header; the sequence
+            # of a chunk-relative collection is named after the chunk
+            sequence = collection.sequence
+            if sequence.id != collection.sequence_name:
+                sequence = Sequence(str(sequence), sequence.alphabet, id=collection.sequence_name, validate_alphabet=False)
+            print(sequence.to_fasta(), file=gff3_handle)
